@@ -19,8 +19,13 @@ EXPLANATION = (
     "their domains, the round-trip identity; X2 each base-vector table, read as a 3x3 coefficient matrix, is orthogonal "
     "(M M^T = I), the reverse table is its transpose after the scalar conversion, and each curvilinear frame expressed in the "
     "Cartesian basis equals the normalised position derivatives (d P/d q_i)/h_i; X3 each Lame triple squared equals "
-    "sum_j (d x_j/d q_i)^2; X4 convert_point / convert_vector wire the tables in the right direction; X5 the fall-through "
-    "dispatch raises TypeError for unlike system types. Branch/range behaviour of atan2 at the singular sets is not decided.")
+    "sum_j (d x_j/d q_i)^2; X4 convert_point / convert_vector, evaluated abstractly for all nine "
+    "ordered pairs, return the new system's scalars expressed in the old ones with all coordinates inserted at once (also for points "
+    "written in the old or the new system's own scalars) and the vector re-expressed through express_base_vectors(old system, new "
+    "system, old_args=(old point,), new_args=(converted point,)); X6 every angle entry stays on one branch: direct = via the third "
+    "system and A -> B -> A = identity, entry by entry (sine and cosine exactly; the branch itself on a grid covering all sign "
+    "patterns and the coordinate planes, which also evaluates Mod/Piecewise entries); X1 is additionally evaluated on that grid; X5 the fall-through "
+    "dispatch raises TypeError for unlike system types. Behaviour ON the singular sets (z axis, origin, azimuth cut) is not decided.")
 ASSUMPTIONS = [
     "radial scalars are non-negative and polar angle in [0, pi] (as the source declares with nonnegative=True): square roots of even monomials are taken positively",
     "a reported inequality is definite up to algebraic dependence between distinct radicals (none occurs in these tables)",
